@@ -187,6 +187,35 @@ impl<'a> IntermediateToken<'a> {
     }
 }
 
+#[cfg(feature = "verif")]
+impl<'a> IntermediateToken<'a> {
+    /// Verification hook: the ordered pattern table as the tokenizer uses it, with the token
+    /// kind `from` assigns to each pattern and whether the identifier boundary is required.
+    pub fn verif_pattern_table() -> Vec<(&'static str, &'static str, bool)> {
+        Self::ALL_TOKEN_PATTERNS_FROM_LONGEST
+            .iter()
+            .map(|pattern| {
+                let kind = match IntermediateToken::from(pattern) {
+                    IntermediateToken::And { .. } => "and",
+                    IntermediateToken::Or { .. } => "or",
+                    IntermediateToken::Not { .. } => "not",
+                    IntermediateToken::ConstantTrue { .. } => "true",
+                    IntermediateToken::ConstantFalse { .. } => "false",
+                    IntermediateToken::ParenthesesStart => "lparen",
+                    IntermediateToken::ParenthesesEnd => "rparen",
+                    IntermediateToken::LiteralLongNameStart => "lbrace",
+                    IntermediateToken::LiteralLongNameEnd => "rbrace",
+                };
+                (
+                    *pattern,
+                    kind,
+                    crate::parser::utils::verif_is_identifier_pattern(pattern),
+                )
+            })
+            .collect()
+    }
+}
+
 #[cfg(test)]
 mod tests {
     use regex::Regex;
